@@ -2,6 +2,10 @@
 mod conv;
 mod graphs;
 mod lat;
+mod mask;
+mod ops;
+mod pack;
+mod scan;
 mod vect;
 
 use pg::Graph;
@@ -99,6 +103,27 @@ fn replay(c: &mut Collector, rep: &Value) {
             "f64x4" => vs(&g.v64x4, &g.s64, &path, case, c),
             o => panic!("unknown vector type {o}"),
         },
+        "pack-unpack" => match vec {
+            "f32x4" => pack::replay_pack(&pack::table_f32x4(), case, c),
+            "f32x8" => pack::replay_pack(&pack::table_f32x8(), case, c),
+            "f64x2" => pack::replay_pack(&pack::table_f64x2(), case, c),
+            "f64x4" => pack::replay_pack(&pack::table_f64x4(), case, c),
+            o => panic!("unknown vector type {o}"),
+        },
+        "mask-ops" => match vec {
+            "f32x4" => mask::replay_mask::<f32x4>(case, c),
+            "f32x8" => mask::replay_mask::<f32x8>(case, c),
+            "f64x2" => mask::replay_mask::<f64x2>(case, c),
+            "f64x4" => mask::replay_mask::<f64x4>(case, c),
+            o => panic!("unknown vector type {o}"),
+        },
+        "operators" => match vec {
+            "f32x4" => ops::replay_ops(&ops::types_f32x4(), case, c),
+            "f32x8" => ops::replay_ops(&ops::types_f32x8(), case, c),
+            "f64x2" => ops::replay_ops(&ops::types_f64x2(), case, c),
+            "f64x4" => ops::replay_ops(&ops::types_f64x4(), case, c),
+            o => panic!("unknown vector type {o}"),
+        },
         "f32-vs-f64" => {
             let (a, b) = (g.s32.index(&path[0]).expect("node"), g.s32.index(&path[1]).expect("node"));
             let x = conv::parse_hex3::<f32>(&case["x"]);
@@ -125,6 +150,7 @@ fn real_main() -> i32 {
         return 0;
     }
     let mut total = Collector::new();
+    scan::scan(&mut total);
     record_adjacency(&g.v32x4, &g.s32, &mut total);
     record_adjacency(&g.v32x8, &g.s32, &mut total);
     record_adjacency(&g.v64x2, &g.s64, &mut total);
@@ -138,5 +164,29 @@ fn real_main() -> i32 {
     conv::run_vs_scalar(&ctx, &g.v64x2, &g.s64, &mut total);
     conv::run_vs_scalar(&ctx, &g.v64x4, &g.s64, &mut total);
     conv::run_f32_f64(&ctx, &g.s32, &g.s64, &mut total);
-    ctx.finish(total, "model_checking", "TODO", &[])
+    pack::run_pack(&ctx, &pack::table_f32x4(), &mut total);
+    pack::run_pack(&ctx, &pack::table_f32x8(), &mut total);
+    pack::run_pack(&ctx, &pack::table_f64x2(), &mut total);
+    pack::run_pack(&ctx, &pack::table_f64x4(), &mut total);
+    mask::run_mask::<f32x4>(&ctx, &mut total);
+    mask::run_mask::<f32x8>(&ctx, &mut total);
+    mask::run_mask::<f64x2>(&ctx, &mut total);
+    mask::run_mask::<f64x4>(&ctx, &mut total);
+    ops::run_ops(&ctx, &ops::types_f32x4(), &mut total);
+    ops::run_ops(&ctx, &ops::types_f32x8(), &mut total);
+    ops::run_ops(&ctx, &ops::types_f64x2(), &mut total);
+    ops::run_ops(&ctx, &ops::types_f64x4(), &mut total);
+    ctx.finish(
+        total,
+        "model_checking",
+        "lane-mix: state = one packed SIMD input (x in one lane, y in all others) of one discovered edge / operator, transition = one vector conversion, trace = one lane compared bitwise with the same lane of f(splat); non-trivial = packed inputs whose two colours have different splat results (a leak between lanes would be visible). simd-vs-scalar, f32-vs-f64: state = (source node, lattice value), transitions = the two conversions, trace = one comparison in XYZ. pack-unpack: state = one array of N colours with distinct sentinels. mask-ops: state = a pair of lane patterns resp. (operand pairs, lane pattern); every lane compared with the scalar bool/float operation",
+        &[
+            "SIMD edges and operators are those rustc finds (autoref-specialisation probes); node list = pg's D65-core list, same order as the scalar graphs (asserted)",
+            "lane independence and pack/unpack/mask operations are compared bitwise (two NaNs count as equal for conversions and operators; strictly bitwise for pack/unpack and masks)",
+            "SIMD vs scalar and f32 vs f64 are compared as colours: both results through the same f64 reference map into linear-light XYZ (white = 1), only for colours that source and target can represent (c02's filter)",
+            "tolerances: SIMD f32 1e-4, SIMD f64 1e-7, f32 vs f64 1e-4 (1e-3 with an Ok-cylindrical end), operators 1e-5 / 1e-12 relative; the observed maxima are in max_err_over_tol (known-defect input classes are excluded from that ratio)",
+            "is_valid_divisor is only compared for zero and normal operands (scalar floats use is_normal(), vectors != 0); CIEDE2000 is not compared against the scalar within 0.5 degrees of opposite hues (documented discontinuity), lane independence is still checked there",
+            "the hardware target is the build's default x86-64 (SSE2): wide's f32 recip is the rcpps estimate there",
+        ],
+    )
 }
